@@ -66,7 +66,8 @@ MODULES = {"distributed": "kappadata.samplers.distributed_sampler", "class_balan
            "weighted": "kappadata.samplers.weighted_sampler"}
 
 
-HISTORIES = ("fresh", "iterated_before", "other_epoch_before", "iterated_before_set_epoch")
+HISTORIES = ("fresh", "iterated_before", "other_epoch_before", "iterated_before_set_epoch", "len_before_iter", "set_epoch_twice",
+             "deepcopy", "pickle", "abandoned_iteration_before")
 
 
 def stream(kind, ds, rank, W, cfg, epoch, choices=None, history="fresh"):
@@ -83,6 +84,24 @@ def stream(kind, ds, rank, W, cfg, epoch, choices=None, history="fresh"):
     s.set_epoch(epoch)
     if history == "iterated_before":
         list(s)
+    if history == "len_before_iter":
+        len(s)
+        len(s)
+    if history == "set_epoch_twice":
+        s.set_epoch(epoch)
+    if history == "deepcopy":
+        import copy
+        s = copy.deepcopy(s)
+    if history == "pickle":
+        import pickle
+        try:
+            s = pickle.loads(pickle.dumps(s))
+        except (pickle.PicklingError, AttributeError, TypeError):
+            pass  # harness dataset classes defined at run time may not pickle: then the object is used as it is
+    if history == "abandoned_iteration_before":
+        it = iter(s)
+        next(it, None)
+        del it
     if choices is None:
         return list(s), len(s), None
     ch = Chooser(tuple(choices))
